@@ -665,3 +665,9 @@ impl Send {
         self.is_extended_connect_protocol_enabled
     }
 }
+
+#[cfg(feature = "verif")]
+#[allow(missing_docs, dead_code, unused_imports)]
+pub(crate) mod verif_h {
+    include!(concat!(env!("H2_VERIF_DIR"), "/harness/proto/streams/send.rs"));
+}
